@@ -148,7 +148,7 @@ func (e *Engine) Load() error {
 
 var initAllow = map[string]bool{
 	"unicode/utf8": true, "errors": true, "io": true, "bytes": true, "bufio": true, "context": true,
-	"strconv": false, "sort": true, "math": true, "sync": false, "strings": true, "encoding/base64": false,
+	"strconv": false, "sort": true, "math": true, "sync": false, "strings": true, "encoding/base64": true,
 	"encoding/binary": false, "net": false, "net/netip": true, "time": false, "unicode": false,
 }
 
